@@ -82,7 +82,6 @@ Qed.
 
 (* ---- payload transfers --------------------------------------------------------------------- *)
 
-Definition zsum (l : list Z) : Z := fold_right Z.add 0 l.
 
 Lemma zsum_app a b : zsum (a ++ b) = zsum a + zsum b.
 Proof. unfold zsum. induction a as [|x a IH]; cbn [app fold_right]; lia. Qed.
@@ -767,6 +766,51 @@ Proof.
   unfold pos_ok in Hp. intros E. rewrite E in Hp. exact Hp.
 Qed.
 
+
+(* ---- every submitted slice lies inside its buffer ------------------------------------------------ *)
+
+Lemma psizes_nonneg q : prm_ok q = true -> Forall (fun x => 0 <= x) (psizes q).
+Proof.
+  intros H. apply prm_ok_nonneg in H. unfold psizes. apply Forall_app. split.
+  - apply Forall_forall. intros x Hx. apply repeat_spec in Hx. lia.
+  - apply Forall_app. split.
+    + destruct (q_f1 q =? 0); constructor; [lia|constructor].
+    + destruct (q_f2 q =? 0); constructor; [lia|constructor].
+Qed.
+
+Lemma zsum_firstn_nth l : Forall (fun x => 0 <= x) l -> forall j x, nth_error l j = Some x ->
+  0 <= zsum (firstn j l) /\ 0 <= x /\ zsum (firstn j l) + x <= zsum l.
+Proof.
+  induction 1 as [|y l Hy Hl IH]; intros [|j] x Hn; cbn [nth_error] in Hn; try discriminate.
+  - inversion Hn; subst. cbn [firstn zsum fold_right]. fold (zsum l).
+    assert (0 <= zsum l) by (clear -Hl; induction Hl; cbn [zsum fold_right]; [lia|fold (zsum l); lia]). lia.
+  - destruct (IH j x Hn) as [H1 [H2 H3]]. cbn [firstn zsum fold_right]. fold (zsum (firstn j l)) (zsum l). lia.
+Qed.
+
+Lemma slice_in_ok q lbuf tbuf buf k sz : prm_ok q = true -> zlen lbuf = q_leader q ->
+  zlen tbuf = q_trailer q -> zlen buf = max_payload q -> nth_error (slots q) k = Some sz ->
+  slice_in q lbuf tbuf buf k sz = true.
+Proof.
+  intros Hq Hl Ht Hb Hn. unfold slice_in.
+  assert (Hns : nslots q = S (length (psizes q) + 1)).
+  { unfold nslots, slots. cbn [length]. rewrite app_length. reflexivity. }
+  unfold slots in Hn.
+  destruct (k =? 0)%nat eqn:E0.
+  - apply Nat.eqb_eq in E0. subst k. cbn [nth_error] in Hn. inversion Hn; subst. apply Z.leb_le. lia.
+  - apply Nat.eqb_neq in E0. destruct k as [|k]; [lia|]. cbn [nth_error] in Hn.
+    destruct (S (S k) =? nslots q)%nat eqn:E.
+    + apply Nat.eqb_eq in E. rewrite nth_error_app2 in Hn by lia.
+      replace (k - length (psizes q))%nat with 0%nat in Hn by lia. cbn [nth_error] in Hn.
+      inversion Hn; subst. apply Z.leb_le. lia.
+    + apply Nat.eqb_neq in E.
+      assert (Hk : (k < length (psizes q))%nat).
+      { assert (k < length (psizes q ++ [q_trailer q]))%nat by (apply nth_error_Some; congruence).
+        rewrite app_length in H. cbn [length] in H. lia. }
+      rewrite nth_error_app1 in Hn by exact Hk. replace (S k - 1)%nat with k by lia.
+      destruct (zsum_firstn_nth _ (psizes_nonneg q Hq) k sz Hn) as [_ [_ H3]].
+      rewrite (zsum_psizes q Hq) in H3. apply Z.leb_le. lia.
+Qed.
+
 (* ---- the loop never blocks ---- *)
 
 Definition loop_active (s : state) : bool :=
@@ -801,8 +845,9 @@ Proof.
     + exists (LBackRecv 0). unfold step. rewrite Ep, Eb. cbn. eauto.
   - exists LPoolNew. unfold step. rewrite Ep. cbn. eauto.
   - (* LSubmit *)
-    destruct Hpos as [_ [Hk _]]. destruct (nth_error_lt (slots (st_prm s)) k Hk) as [sz Hsz].
-    exists (LSubmitOk sz). unfold step. rewrite Ep, Hsz, Z.eqb_refl. cbn. eauto.
+    destruct Hpos as [[Hbl _] [Hk _]]. destruct (nth_error_lt (slots (st_prm s)) k Hk) as [sz Hsz].
+    exists (LSubmitOk sz). unfold step.
+    rewrite Ep, Hsz, Z.eqb_refl, (slice_in_ok _ _ _ _ _ _ Hprm Hlb Htb Hbl Hsz). cbn. eauto.
   - (* LPoll *)
     destruct Hpos as [_ [Hk [_ Hpend]]].
     destruct (nth_error_lt (slots (st_prm s)) (length ds) Hk) as [sz Hsz].
@@ -1059,4 +1104,51 @@ Lemma ledger_empty_when_idle sc cp cb ls s : script_ok sc -> run true (init sc c
 Proof.
   intros Hs H Hp. destruct (reach_invs _ _ _ _ _ Hs H) as [Hi _]. pose proof (i_pos _ Hi) as Hpos.
   unfold pos_ok in Hpos. destruct Hp as [Hp|Hp]; rewrite Hp in Hpos; exact Hpos.
+Qed.
+
+(* ---- buffers handed back by the receiver ---------------------------------------------------------- *)
+
+Lemma resize_any_length n b : 0 <= n -> zlen (resize n b) = n.
+Proof.
+  intros H. unfold resize. rewrite zlen_app, zlen_take_min, zlen_repeat.
+  pose proof (zlen_nonneg b). lia.
+Qed.
+
+(* whatever length the buffer of a handed-back payload has (shorter, equal, longer than the current
+   maximum_payload_size, e.g. kept from a run with another geometry), the loop goes on with a buffer
+   of exactly maximum_payload_size bytes *)
+Lemma returned_buffers_resized sc cp cb ls s p bq' : script_ok sc -> run true (init sc cp cb) ls = Some s ->
+  st_pos s = LBuf -> st_bq s = p :: bq' ->
+  exists s' b, step true s (LBackRecv 0) = Some s' /\ st_pos s' = LNew b /\
+    zlen b = max_payload (st_prm s') /\ st_prm s' = st_prm s /\ bytes_ok b.
+Proof.
+  intros Hs H Hp Hb. destruct (reach_invs _ _ _ _ _ Hs H) as [Hi _].
+  unfold step. rewrite Hp, Hb. cbn [Z.eqb]. eexists. eexists. split; [reflexivity|]. sf.
+  split; [reflexivity|]. pose proof (i_bq _ Hi) as Hq. rewrite Hb in Hq.
+  destruct (bufok_resize (st_prm s) (p_buf p) (i_prm _ Hi) (Forall_inv Hq)) as [H1 H2]. auto.
+Qed.
+
+(* every slice the loop passes to submit lies inside its buffer (no slicing panic), in particular
+   payload_buf[cursor .. cursor + size] for every payload transfer *)
+Lemma submitted_slices_inside sc cp cb ls s buf k : script_ok sc -> run true (init sc cp cb) ls = Some s ->
+  st_pos s = LSubmit buf k ->
+  zlen buf = max_payload (st_prm s) /\
+  exists sz, nth_error (slots (st_prm s)) k = Some sz /\
+    slice_in (st_prm s) (st_lbuf s) (st_tbuf s) buf k sz = true /\
+    ((0 < k)%nat -> S k <> nslots (st_prm s) ->
+     0 <= zsum (firstn (k - 1) (psizes (st_prm s))) /\
+     zsum (firstn (k - 1) (psizes (st_prm s))) + sz <= zlen buf).
+Proof.
+  intros Hs H Hp. destruct (reach_invs _ _ _ _ _ Hs H) as [Hi _].
+  pose proof (i_pos _ Hi) as Hpos. unfold pos_ok in Hpos. rewrite Hp in Hpos.
+  destruct Hpos as [[Hbl Hbb] [Hk _]]. split; [exact Hbl|].
+  destruct (nth_error_lt (slots (st_prm s)) k Hk) as [sz Hsz]. exists sz. split; [exact Hsz|].
+  pose proof (slice_in_ok _ _ _ _ _ _ (i_prm _ Hi) (i_lbuf _ Hi) (i_tbuf _ Hi) Hbl Hsz) as Hin.
+  split; [exact Hin|]. intros Hk0 Hkn. unfold slice_in in Hin.
+  destruct (k =? 0)%nat eqn:E0; [apply Nat.eqb_eq in E0; lia|].
+  destruct (S k =? nslots (st_prm s))%nat eqn:E1; [apply Nat.eqb_eq in E1; congruence|].
+  apply Z.leb_le in Hin. split; [|exact Hin].
+  assert (Hnn : forall l, Forall (fun x => 0 <= x) l -> 0 <= zsum l).
+  { induction 1 as [|x l Hx Hl IH]; cbn [zsum fold_right]; [lia|]. fold (zsum l). lia. }
+  apply Hnn. apply Forall_firstn. apply psizes_nonneg. exact (i_prm _ Hi).
 Qed.
